@@ -1470,25 +1470,29 @@ func main() {
 		bulkSizes = append(bulkSizes, 65537)
 	}
 	ensureBulk(bulkSizes[len(bulkSizes)-1])
+	var bulkCases []loadCase
 	for _, n := range bulkSizes {
-		for _, t := range storeTypes[:3] {
-			cases = append(cases,
-				loadCase{Part: "bulk", Type: t.Value, Name: "s", Path: "directory", Bulk: n},
-				loadCase{Part: "bulk", Type: t.Value, Name: "s", Path: "directory", Bulk: n, Entries: []string{"garbage"}})
+		for ti, t := range storeTypes[:3] {
+			bulkCases = append(bulkCases, loadCase{Part: "bulk", Type: t.Value, Name: "s", Path: "directory", Bulk: n})
+			if n > 1025 && ti > 0 && !r.Thorough() {
+				continue // quick: the bad-entry variants of the big store for one type, all of them for the small one
+			}
+			bulkCases = append(bulkCases, loadCase{Part: "bulk", Type: t.Value, Name: "s", Path: "directory", Bulk: n, Entries: []string{"garbage"}})
 			if n <= 10001 {
-				cases = append(cases,
+				bulkCases = append(bulkCases,
 					loadCase{Part: "bulk", Type: t.Value, Name: "s", Path: "directory", Bulk: n, Entries: []string{"garbage"}, Names: []string{"leading-dash"}},
 					loadCase{Part: "bulk", Type: t.Value, Name: "s", Path: "directory", Bulk: n, Entries: []string{"leaf-issued-by-ca"}},
 					loadCase{Part: "bulk", Type: t.Value, Name: "s", Path: "directory", Bulk: n, Entries: []string{"symlink-to-cert"}, Names: []string{"leading-dash"}})
 			}
 		}
 	}
-	nBulk := len(cases) - nEntries - nPaths - nStyled
+	nBulk := len(bulkCases)
 	// instance reuse: every case again on a trust-store instance that loaded other stores before
 	for _, c := range append([]loadCase(nil), cases...) {
 		c.Prior = 1
 		cases = append(cases, c)
 	}
+	cases = append(cases, bulkCases...) // on a fresh trust-store object only
 	nBase := len(cases)
 	// path histories: the object at the store path changes its kind between two loads on one object
 	for _, t := range storeTypes[:3] {
@@ -1546,7 +1550,10 @@ func main() {
 				w = len(t.Entries)
 			}
 		}
-		return w
+		if c.Bulk > 0 {
+			return 3 // the (expensive) big stores after everything with <= 1 entry, before the rest
+		}
+		return 2 * w
 	}
 	sort.SliceStable(cases, func(a, b int) bool { return weight(cases[a]) < weight(cases[b]) })
 	r.Extra["entry_kinds"] = len(kinds)
